@@ -638,6 +638,9 @@ func (e *SpecEnv) evalCall(x *ast.CallExpr) Term {
 	case "chanclosed":
 		c := e.eval(arg(0))
 		return boolTerm(vc.chanClosed(e.st, c.S))
+	case "chanhead":
+		c := e.eval(arg(0))
+		return intTerm(vc.chanHead(e.st, c.S))
 	case "chancap":
 		c := e.eval(arg(0))
 		return intTerm(vc.chanCap(e.st, c.S))
